@@ -204,10 +204,14 @@ class PreemptibleResource(Entity):
             return future
 
         # Try preemption
+        freed = 0
         if preempt:
-            self._try_preempt(amount, priority)
+            freed = self._try_preempt(amount, priority)
             if self._available >= amount:
                 self._grant_immediate(future, amount, priority, on_preempt)
+                # The evicted grants may have held more than we need: hand the
+                # surplus to queued waiters now, not at some later release()
+                self._wake_waiters()
                 return future
 
         # Must wait
@@ -221,6 +225,10 @@ class PreemptibleResource(Entity):
         )
         self._insert_counter += 1
         heapq.heappush(self._waiters, waiter)
+        if freed:
+            # Preemption freed capacity but not enough for us: let whoever is
+            # first in priority order and fits use it
+            self._wake_waiters()
 
         logger.debug(
             "[%s] Queued acquire(%d, priority=%.1f), waiters=%d",
